@@ -410,6 +410,8 @@ def run(ctx) -> None:
     ctx.step(_recon, ctx)
     ctx.step(_native_delegation, ctx)
     ctx.step(native_tabulate, ctx)
+    from . import C05
+    ctx.step(C05._length_tabulate, ctx, True)      # a - b has exactly the length of the native subtraction (naive, UTC and date pairs of any span)
     from . import C02
     ctx.step(C02._funnel, ctx)        # replace()/set() like the native replace(): every field, tzinfo and fold reach the constructor
     ctx.step(_eq_hash_str, ctx)
